@@ -18,7 +18,9 @@ CONSTANTS Nodes,        \* master nodes (naturals)
           MaxHops,      \* bound on redirections per request (state constraint only)
           WithMigration,\* allow one slot to migrate
           EmptyTableAtStart, \* the proxy starts without routing information
-          AtomicAsk     \* TRUE: ASKING and the command are enqueued atomically (repaired design)
+          AtomicAsk,    \* TRUE: ASKING and the command are enqueued atomically (repaired design)
+          WithFailover, \* allow one master to be replaced by a standby node (its replica) and to die
+          FixRefreshOnDialError \* TRUE: a failed connect to a backend triggers a table refresh (repaired code)
 
 Absent == 0            \* values are request ids (>= 1)
 OKReply == 1000
@@ -35,10 +37,15 @@ VARIABLES
   asking,     \* asking[n]: ASKING flag of that connection
   reqs,       \* sequence of requests: [op, k, val, st, reply, exp, hops, applied, askTo]
   ref,        \* ref[k]: value a single server would hold
-  migs        \* migrations started so far (one per model run: a redirection that is delayed across
+  migs,       \* migrations started so far (one per model run: a redirection that is delayed across
               \* several migrations of the same slot misbehaves with any Redis Cluster client)
+  up,         \* up[n]: node n is reachable
+  refreshes,  \* number of table refreshes so far
+  failAt      \* value of `refreshes` when the failover happened (requests routed before the next refresh may fail)
 
-vars == <<owner, mig, store, table, needRefresh, q, asking, reqs, ref, migs>>
+vars == <<owner, mig, store, table, needRefresh, q, asking, reqs, ref, migs, up, refreshes, failAt>>
+
+ErrReply == 998
 
 R == 1..Len(reqs)
 
@@ -53,6 +60,8 @@ Init ==
   /\ reqs = <<>>
   /\ ref = [k \in Keys |-> Absent]
   /\ migs = 0
+  /\ up = [n \in Nodes |-> TRUE]
+  /\ refreshes = 0 /\ failAt = 0
 
 Enq(qq, n, item) == [qq EXCEPT ![n] = Append(@, item)]
 
@@ -64,9 +73,9 @@ Issue(op, k) ==
      IN \E n \in Nodes :
           /\ (table[s] # NoNode => n = table[s])
           /\ reqs' = Append(reqs, [op |-> op, k |-> k, val |-> r, st |-> "inflight", reply |-> NoReply,
-                                   exp |-> NoReply, hops |-> 0, applied |-> 0, askTo |-> NoNode])
+                                   exp |-> NoReply, hops |-> 0, applied |-> 0, askTo |-> NoNode, at |-> refreshes])
           /\ q' = Enq(q, n, [t |-> "cmd", r |-> r])
-  /\ UNCHANGED <<owner, mig, store, table, needRefresh, asking, ref, migs>>
+  /\ UNCHANGED <<owner, mig, store, table, needRefresh, asking, ref, migs, up, refreshes, failAt>>
 
 \* what node n answers to request r (asking flag af): "serve" | <<"moved", n2>> | <<"ask", n2>>
 Decide(n, k, af) ==
@@ -81,7 +90,7 @@ Decide(n, k, af) ==
 
 (* node n processes the head of the proxy's connection *)
 NodeExec(n) ==
-  /\ q[n] # <<>>
+  /\ up[n] /\ q[n] # <<>>
   /\ LET h == Head(q[n]) IN
      IF h.t = "asking"
        THEN /\ asking' = [asking EXCEPT ![n] = TRUE]
@@ -116,42 +125,69 @@ NodeExec(n) ==
                                 /\ reqs' = [reqs EXCEPT ![r].hops = @ + 1, ![r].st = "askpending", ![r].askTo = d[2]]
                       /\ needRefresh' = TRUE
                       /\ UNCHANGED <<store, ref>>
-  /\ UNCHANGED <<owner, mig, table, migs>>
+  /\ UNCHANGED <<owner, mig, table, migs, up, refreshes, failAt>>
+
+(* the proxy cannot connect to node n (it is down): every request queued for it is answered with *)
+(* an error; the repaired code also asks for a refresh of the routing table                      *)
+DialError(n) ==
+  /\ ~up[n] /\ q[n] # <<>>
+  /\ LET h == Head(q[n]) IN
+       /\ q' = [q EXCEPT ![n] = Tail(@)]
+       /\ IF h.t = "cmd"
+            THEN reqs' = [reqs EXCEPT ![h.r].st = "done", ![h.r].reply = ErrReply,
+                                      \* legitimate only for a request routed before the table could know
+                                      ![h.r].exp = IF reqs[h.r].at <= failAt THEN ErrReply ELSE NoReply]
+            ELSE UNCHANGED reqs
+  /\ needRefresh' = (needRefresh \/ FixRefreshOnDialError)
+  /\ UNCHANGED <<owner, mig, store, table, asking, ref, migs, up, refreshes, failAt>>
+
+(* failover: standby node m (owns nothing, holds nothing - it mirrors n) takes over the slots and *)
+(* the data of master n, which dies                                                                *)
+Failover(n, m) ==
+  /\ WithFailover /\ n # m /\ up[n] /\ up[m] /\ \A x \in Nodes : up[x]
+  /\ \E s \in Slots : owner[s] = n
+  /\ \A s \in Slots : owner[s] # m /\ mig[s] = <<>>
+  /\ owner' = [s \in Slots |-> IF owner[s] = n THEN m ELSE owner[s]]
+  /\ store' = [store EXCEPT ![m] = store[n], ![n] = [k \in Keys |-> Absent]]
+  /\ up' = [up EXCEPT ![n] = FALSE] /\ failAt' = refreshes
+  /\ UNCHANGED <<mig, table, needRefresh, q, asking, reqs, ref, migs, refreshes>>
 
 (* the second send of handleRedirection's ASK branch *)
 AskSecond(r) ==
   /\ r \in R /\ reqs[r].st = "askpending"
   /\ q' = Enq(q, reqs[r].askTo, [t |-> "cmd", r |-> r])
   /\ reqs' = [reqs EXCEPT ![r].st = "inflight"]
-  /\ UNCHANGED <<owner, mig, store, table, needRefresh, asking, ref, migs>>
+  /\ UNCHANGED <<owner, mig, store, table, needRefresh, asking, ref, migs, up, refreshes, failAt>>
 
 (* loopRefreshSlots: rebuild the table from CLUSTER NODES *)
 Refresh ==
   /\ needRefresh /\ table' = owner /\ needRefresh' = FALSE
-  /\ UNCHANGED <<owner, mig, store, q, asking, reqs, ref, migs>>
+  /\ refreshes' = IF WithFailover THEN refreshes + 1 ELSE refreshes   \* only needed to date a failover
+  /\ UNCHANGED <<owner, mig, store, q, asking, reqs, ref, migs, up, failAt>>
 
 (* operator: migrate slot s to node dst *)
 SetMigrating(s, dst) ==
   /\ WithMigration /\ migs = 0 /\ migs' = 1
   /\ dst # owner[s]
   /\ mig' = [mig EXCEPT ![s] = <<owner[s], dst>>]
-  /\ UNCHANGED <<owner, store, table, needRefresh, q, asking, reqs, ref>>
+  /\ UNCHANGED <<owner, store, table, needRefresh, q, asking, reqs, ref, up, refreshes, failAt>>
 
 MigrateKey(k) ==
   /\ LET s == SlotOf[k] IN
        /\ mig[s] # <<>> /\ store[mig[s][1]][k] # Absent
        /\ store' = [store EXCEPT ![mig[s][1]][k] = Absent, ![mig[s][2]][k] = store[mig[s][1]][k]]
-  /\ UNCHANGED <<owner, mig, table, needRefresh, q, asking, reqs, ref, migs>>
+  /\ UNCHANGED <<owner, mig, table, needRefresh, q, asking, reqs, ref, migs, up, refreshes, failAt>>
 
 Finalise(s) ==
   /\ mig[s] # <<>> /\ \A k \in Keys : SlotOf[k] = s => store[mig[s][1]][k] = Absent
   /\ owner' = [owner EXCEPT ![s] = mig[s][2]] /\ mig' = [mig EXCEPT ![s] = <<>>]
-  /\ UNCHANGED <<store, table, needRefresh, q, asking, reqs, ref, migs>>
+  /\ UNCHANGED <<store, table, needRefresh, q, asking, reqs, ref, migs, up, refreshes, failAt>>
 
-ProxyNext == (\E r \in R : AskSecond(r)) \/ Refresh
+ProxyNext == (\E r \in R : AskSecond(r)) \/ Refresh \/ (\E n \in Nodes : DialError(n))
 NodeNext == \E n \in Nodes : NodeExec(n)
 EnvNext == (\E op \in {"read", "write"}, k \in Keys : Issue(op, k))
            \/ (\E s \in Slots, d \in Nodes : SetMigrating(s, d)) \/ (\E k \in Keys : MigrateKey(k)) \/ (\E s \in Slots : Finalise(s))
+           \/ (\E n, m \in Nodes : Failover(n, m))
 Next == ProxyNext \/ NodeNext \/ EnvNext
 Spec == Init /\ [][Next]_vars /\ WF_vars(ProxyNext) /\ WF_vars(NodeNext)
 
@@ -161,14 +197,21 @@ HopBound == \A r \in R : reqs[r].hops <= MaxHops
 \* every reply equals the reply of a single server (reads see the latest write; writes answer OK)
 EqualsReference == \A r \in R : reqs[r].st = "done" => reqs[r].reply = reqs[r].exp
 \* a command is executed exactly once when it is answered, never more than once
-EffectOnce == \A r \in R : reqs[r].applied <= 1 /\ (reqs[r].st = "done" => reqs[r].applied = 1)
+EffectOnce == \A r \in R : /\ reqs[r].applied <= 1
+                            /\ (reqs[r].st = "done" /\ reqs[r].reply # ErrReply => reqs[r].applied = 1)
+                            /\ (reqs[r].reply = ErrReply => reqs[r].applied = 0)
 \* each key has at most one copy, and it is what a single server would hold
 SingleCopy == \A k \in Keys : Cardinality({n \in Nodes : store[n][k] # Absent}) <= 1
 CopyIsReference == \A k \in Keys : \A n \in Nodes : store[n][k] # Absent => store[n][k] = ref[k]
 NoLostKey == \A k \in Keys : ref[k] # Absent => \E n \in Nodes : store[n][k] = ref[k]
 \* with a loaded, current table and no migration the first hop is the owner: no redirection at all (C03)
-FirstHopIsOwner == (~WithMigration /\ ~EmptyTableAtStart) => \A r \in R : reqs[r].hops = 0
+FirstHopIsOwner == (~WithMigration /\ ~EmptyTableAtStart /\ ~WithFailover) => \A r \in R : reqs[r].hops = 0
+\* an error reply only for a request that was routed by a table that did not yet know about the failover
+\* (exp = ErrReply marks those); once the table is current again no request may fail
+ErrorsOnlyWhileStale == \A r \in R : reqs[r].reply = ErrReply => reqs[r].exp = ErrReply
 \* every command is eventually answered; after the layout settles the table converges (C07)
 AllDone == <>[](\A r \in R : reqs[r].st = "done")
 Converges == <>[](table = owner)
+\* after a failover, the first request that fails against the dead master makes the table converge
+ConvergesAfterDialError == (\E r \in R : reqs[r].reply = ErrReply) ~> (table = owner)
 =============================================================================
